@@ -13,9 +13,19 @@
 (*           root selected by selector s (or by no selector: one root) from  *)
 (*           the v-th JSON value of the f-th file, -1 when it is not an array *)
 (*                                                                           *)
+(* The bindings are CELLS a rule body can write (`$ = v`, `$.p = v`,         *)
+(* `$file = v`): `cell` is the overlay of such writes on the tree of the     *)
+(* root of the current round, `fw` the content of the $file cell.  The       *)
+(* statement re-binds: every BEGIN / END rule gets a fresh null cell, every  *)
+(* JSON value a fresh $file cell, every (value, selector) round a fresh tree *)
+(* selected from the value as read -- so no write outlives its rule (BEGIN,  *)
+(* END), its value ($file) or its round ($).  Within a round writes are      *)
+(* ordinary assignments: later activations of the round see them.            *)
+(*                                                                           *)
 (* Not modelled (left open by the statement): `next` outside a pattern rule  *)
-(* body, a BEGINFILE rule that reassigns $, $index outside an array round,   *)
-(* $ in BEGIN.                                                               *)
+(* body, $ in ENDFILE once the root cell of the round was reassigned as a    *)
+(* whole, $file in a later selector round of the value in which it was       *)
+(* overwritten, $index outside an array round, $ in BEGIN.                   *)
 EXTENDS JqUtil
 
 CONSTANT ObsKeep   \* 0: obs is the whole history; k > 0: only the last k entries are kept
@@ -31,10 +41,12 @@ VARIABLES
   tested,         \* pattern rule ri was tested truthy, its body is pending
   signal,         \* "none" | "next" | "exit": control signal raised by the last body, not yet consumed
   dollar, index, file,   \* what $, $index, $file denote
+  cell,           \* writes of the current round through $: [root |-> overlay of the root cell, els |-> element index (1-based) -> overlay]
+  fw,             \* the $file cell: 0 = names file `file`; r > 0 = overwritten by rule r; -1 = overwritten in an earlier round of this value (open)
   obs,            \* history of activations
   outcome         \* "running" | "ok"
 
-dvars == <<rules, files, part, phase, level, fi, vi, si, ei, ri, tested, signal, dollar, index, file, obs, outcome>>
+dvars == <<rules, files, part, phase, level, fi, vi, si, ei, ri, tested, signal, dollar, index, file, cell, fw, obs, outcome>>
 
 Kinds == {"B", "BF", "P", "EF", "E"}
 
@@ -49,9 +61,34 @@ OfKind(rs, k) == SelectSeq([i \in 1..Len(rs) |-> i], LAMBDA i : rs[i].kind = k)
 NoPart == [k \in Kinds |-> <<>>]
 N(k) == Len(part[k])
 
+\* ---- overlays: what a body wrote into a cell.  <<"-", 0>> nothing; <<"w", r>> rule r assigned the whole
+\* cell (`$ = v`, v a scalar); <<"p", r>> rule r assigned the member p of the object in the cell (`$.p = v`)
+NoW == <<"-", 0>>
+NoCell == [root |-> NoW, els |-> <<>>]
+Writes == {"none", "sd", "sf", "sm"}      \* nothing | `$ = v` | `$file = v` | `$.p = v`
+ElOv(c, e) == IF e \in DOMAIN c.els THEN c.els[e] ELSE NoW
+SetEl(c, e, ov) == [c EXCEPT !.els = [x \in DOMAIN c.els \cup {e} |-> IF x = e THEN ov ELSE c.els[x]]]
+
 CurKind == IF phase = "begin" THEN "B" ELSE IF phase = "end" THEN "E"
            ELSE IF level = "bf" THEN "BF" ELSE IF level = "ef" THEN "EF" ELSE "P"
 RootN == files[fi][vi][si].n
+\* a root whose cell was assigned a scalar is not an array (any more)
+RootWhole == cell.root[1] = "w"
+EffN == IF RootWhole THEN -1 ELSE RootN
+InArrayRound == phase = "files" /\ level = "rule" /\ EffN >= 0
+\* the overlay of the cell $ denotes: BEGIN / END rules get a fresh null cell each
+DollarW == IF phase \in {"begin", "end"} THEN NoW
+           ELSE IF InArrayRound THEN ElOv(cell, ei + 1) ELSE cell.root
+Written(w, r) == IF w = "sd" THEN <<"w", r>> ELSE <<"p", r>>
+CellAfter(w, r) ==
+  IF w \in {"none", "sf"} \/ phase \in {"begin", "end"} THEN cell
+  ELSE IF InArrayRound THEN SetEl(cell, ei + 1, Written(w, r))
+  ELSE [cell EXCEPT !.root = Written(w, r)]
+\* a member can be assigned only in an object: not in null (BEGIN, END), not in a cell holding a scalar
+\* and $file exists only while a value is being processed
+CanWrite(w) == /\ w \in Writes
+               /\ w = "sm" => (phase = "files" /\ DollarW[1] # "w")
+               /\ w = "sf" => phase = "files"
 
 \* position of an activation in the run, for the ordering properties:
 \* <<phase, file, value, selector, stage, round, rule within kind, test(0)/body(1)>>
@@ -63,9 +100,15 @@ Pos(t) ==
 
 \* one activation: t = "test" (a pattern rule is reached and its pattern, if any, tested: outcome b)
 \*                 t = "body" (a rule's body runs; sig = the signal it raises)
-Entry(t, b, sig) ==
+\*   w: the write the body performs; cw: overlay of the cell $ denotes; ews: overlays of the elements when $ is an
+\*   array root; fw: the $file cell; en: length of the root as it is now (-1: not an array); dopen: $ is left open
+Entry(t, b, sig, w) ==
   [t |-> t, k |-> CurKind, r |-> part[CurKind][ri], i |-> ri - 1, b |-> b, sig |-> sig,
-   d |-> dollar, x |-> index, fb |-> file, pos |-> Pos(IF t = "test" THEN 0 ELSE 1)]
+   d |-> dollar, x |-> index, fb |-> file, pos |-> Pos(IF t = "test" THEN 0 ELSE 1),
+   w |-> w, cw |-> DollarW,
+   ews |-> (IF phase = "files" /\ level \in {"bf", "ef"} /\ EffN >= 0 THEN cell.els ELSE <<>>),
+   fw |-> fw, en |-> (IF phase = "files" THEN EffN ELSE -1),
+   dopen |-> (phase = "files" /\ level = "ef" /\ RootWhole)]
 
 Push(e) ==
   LET o == Append(obs, e) IN
@@ -77,7 +120,7 @@ Load(rs, fs) ==
   /\ phase' = "parsed" /\ level' = "-"
   /\ fi' = 0 /\ vi' = 0 /\ si' = 0 /\ ei' = -1 /\ ri' = 1
   /\ tested' = FALSE /\ signal' = "none"
-  /\ dollar' = DOpen /\ index' = -1 /\ file' = 0
+  /\ dollar' = DOpen /\ index' = -1 /\ file' = 0 /\ cell' = NoCell /\ fw' = 0
   /\ obs' = <<>> /\ outcome' = "running"
 
 Idle ==
@@ -85,7 +128,7 @@ Idle ==
   /\ phase = "config" /\ level = "-"
   /\ fi = 0 /\ vi = 0 /\ si = 0 /\ ei = -1 /\ ri = 1
   /\ tested = FALSE /\ signal = "none"
-  /\ dollar = DOpen /\ index = -1 /\ file = 0
+  /\ dollar = DOpen /\ index = -1 /\ file = 0 /\ cell = NoCell /\ fw = 0
   /\ obs = <<>> /\ outcome = "running"
 
 \* back to the idle state (between the runs of a concatenated trace)
@@ -94,7 +137,7 @@ Unload ==
   /\ phase' = "config" /\ level' = "-"
   /\ fi' = 0 /\ vi' = 0 /\ si' = 0 /\ ei' = -1 /\ ri' = 1
   /\ tested' = FALSE /\ signal' = "none"
-  /\ dollar' = DOpen /\ index' = -1 /\ file' = 0
+  /\ dollar' = DOpen /\ index' = -1 /\ file' = 0 /\ cell' = NoCell /\ fw' = 0
   /\ obs' = <<>> /\ outcome' = "running"
 
 Quiet == signal = "none" /\ phase # "done"
@@ -104,119 +147,126 @@ ReadRules ==
   /\ phase = "parsed"
   /\ part' = [k \in Kinds |-> OfKind(rules, k)]
   /\ phase' = "begin" /\ ri' = 1 /\ dollar' = DOpen
-  /\ UNCHANGED <<rules, files, level, fi, vi, si, ei, tested, signal, index, file, obs, outcome>>
+  /\ UNCHANGED <<rules, files, level, fi, vi, si, ei, tested, signal, index, file, cell, fw, obs, outcome>>
 
-\* ---- a rule of kind B / BF / EF / E runs (no pattern); sig: the signal its body raises
-RunPlain(sig) ==
-  /\ sig \in {"none", "exit"}
+\* ---- a rule of kind B / BF / EF / E runs (no pattern); sig: the signal its body raises, w: what it writes
+RunPlain(sig, w) ==
+  /\ sig \in {"none", "exit"} /\ CanWrite(w)
   /\ ri <= N(CurKind)
-  /\ obs' = Push(Entry("body", TRUE, sig))
+  /\ obs' = Push(Entry("body", TRUE, sig, w))
+  /\ cell' = CellAfter(w, part[CurKind][ri])
+  /\ fw' = (IF w = "sf" THEN part[CurKind][ri] ELSE fw)
   /\ signal' = sig /\ ri' = ri + 1
   /\ UNCHANGED <<rules, files, part, phase, level, fi, vi, si, ei, tested, dollar, index, file, outcome>>
 
-RunBegin(sig) == Quiet /\ phase = "begin" /\ RunPlain(sig)
+RunBegin(sig, w) == Quiet /\ phase = "begin" /\ RunPlain(sig, w)
 EndBegin ==
   /\ Quiet /\ phase = "begin" /\ ri > N("B")
   /\ phase' = "files" /\ level' = "file" /\ fi' = 0
-  /\ UNCHANGED <<rules, files, part, vi, si, ei, ri, tested, signal, dollar, index, file, obs, outcome>>
+  /\ UNCHANGED <<rules, files, part, vi, si, ei, ri, tested, signal, dollar, index, file, cell, fw, obs, outcome>>
 
 \* ---- for _, file := range files
 NextFile ==
   /\ Quiet /\ phase = "files" /\ level = "file" /\ fi < Len(files)
   /\ fi' = fi + 1 /\ vi' = 0 /\ level' = "value"
-  /\ UNCHANGED <<rules, files, part, phase, si, ei, ri, tested, signal, dollar, index, file, obs, outcome>>
+  /\ UNCHANGED <<rules, files, part, phase, si, ei, ri, tested, signal, dollar, index, file, cell, fw, obs, outcome>>
 EndFiles ==
   /\ Quiet /\ phase = "files" /\ level = "file" /\ fi = Len(files)
   /\ phase' = "end" /\ level' = "-" /\ ri' = 1 /\ dollar' = DNull
-  /\ UNCHANGED <<rules, files, part, fi, vi, si, ei, tested, signal, index, file, obs, outcome>>
+  /\ UNCHANGED <<rules, files, part, fi, vi, si, ei, tested, signal, index, file, cell, fw, obs, outcome>>
 
-\* ---- for d.More(): decode the next value; $file is published
+\* ---- for d.More(): decode the next value; $file is published: a fresh cell naming the file
 NextValue ==
   /\ Quiet /\ phase = "files" /\ level = "value" /\ vi < Len(files[fi])
-  /\ vi' = vi + 1 /\ si' = 0 /\ file' = fi /\ level' = "sel"
-  /\ UNCHANGED <<rules, files, part, phase, fi, ei, ri, tested, signal, dollar, index, obs, outcome>>
+  /\ vi' = vi + 1 /\ si' = 0 /\ file' = fi /\ fw' = 0 /\ level' = "sel"
+  /\ UNCHANGED <<rules, files, part, phase, fi, ei, ri, tested, signal, dollar, index, cell, obs, outcome>>
 EndValues ==
   /\ Quiet /\ phase = "files" /\ level = "value" /\ vi = Len(files[fi])
   /\ level' = "file"
-  /\ UNCHANGED <<rules, files, part, phase, fi, vi, si, ei, ri, tested, signal, dollar, index, file, obs, outcome>>
+  /\ UNCHANGED <<rules, files, part, phase, fi, vi, si, ei, ri, tested, signal, dollar, index, file, cell, fw, obs, outcome>>
 
-\* ---- for _, rootCell := range rootCells (one per selector; one if there is none)
+\* ---- for _, rootCell := range rootCells (one per selector; one if there is none): the root is selected
+\* from the value as read, whatever the rules did to the roots of earlier rounds
 NextSelector ==
   /\ Quiet /\ phase = "files" /\ level = "sel" /\ si < Len(files[fi][vi])
   /\ si' = si + 1 /\ dollar' = DRoot(fi, vi, si + 1) /\ ri' = 1 /\ level' = "bf"
+  /\ cell' = NoCell /\ fw' = (IF fw = 0 THEN 0 ELSE -1)
   /\ UNCHANGED <<rules, files, part, phase, fi, vi, ei, tested, signal, index, file, obs, outcome>>
 EndSelectors ==
   /\ Quiet /\ phase = "files" /\ level = "sel" /\ si = Len(files[fi][vi])
   /\ level' = "value"
-  /\ UNCHANGED <<rules, files, part, phase, fi, vi, si, ei, ri, tested, signal, dollar, index, file, obs, outcome>>
+  /\ UNCHANGED <<rules, files, part, phase, fi, vi, si, ei, ri, tested, signal, dollar, index, file, cell, fw, obs, outcome>>
 
 \* ---- BEGINFILE rules, $ = the selected root
-RunBeginFile(sig) == Quiet /\ phase = "files" /\ level = "bf" /\ RunPlain(sig)
+RunBeginFile(sig, w) == Quiet /\ phase = "files" /\ level = "bf" /\ RunPlain(sig, w)
 EnterPatternRules ==
   /\ Quiet /\ phase = "files" /\ level = "bf" /\ ri > N("BF")
   /\ level' = "elem" /\ ei' = -1
-  /\ UNCHANGED <<rules, files, part, phase, fi, vi, si, ri, tested, signal, dollar, index, file, obs, outcome>>
+  /\ UNCHANGED <<rules, files, part, phase, fi, vi, si, ri, tested, signal, dollar, index, file, cell, fw, obs, outcome>>
 
 \* ---- evalPatternRules: one round per element of an array root, exactly one round otherwise
 NextElement ==
-  /\ Quiet /\ phase = "files" /\ level = "elem" /\ RootN >= 0 /\ ei < RootN - 1
+  /\ Quiet /\ phase = "files" /\ level = "elem" /\ EffN >= 0 /\ ei < EffN - 1
   /\ ei' = ei + 1 /\ index' = ei + 1 /\ dollar' = DElem(fi, vi, si, ei + 1)
   /\ ri' = 1 /\ level' = "rule"
-  /\ UNCHANGED <<rules, files, part, phase, fi, vi, si, tested, signal, file, obs, outcome>>
+  /\ UNCHANGED <<rules, files, part, phase, fi, vi, si, tested, signal, file, cell, fw, obs, outcome>>
 RootRound ==
-  /\ Quiet /\ phase = "files" /\ level = "elem" /\ RootN = -1 /\ ei = -1
+  /\ Quiet /\ phase = "files" /\ level = "elem" /\ EffN = -1 /\ ei = -1
   /\ ei' = 0 /\ dollar' = DRoot(fi, vi, si)
   /\ ri' = 1 /\ level' = "rule"
-  /\ UNCHANGED <<rules, files, part, phase, fi, vi, si, tested, signal, index, file, obs, outcome>>
+  /\ UNCHANGED <<rules, files, part, phase, fi, vi, si, tested, signal, index, file, cell, fw, obs, outcome>>
 EndElements ==
   /\ Quiet /\ phase = "files" /\ level = "elem"
-  /\ \/ RootN >= 0 /\ ei = RootN - 1
-     \/ RootN = -1 /\ ei = 0
+  /\ \/ EffN >= 0 /\ ei = EffN - 1
+     \/ EffN = -1 /\ ei = 0
   /\ level' = "ef" /\ ri' = 1 /\ dollar' = DRoot(fi, vi, si)
-  /\ UNCHANGED <<rules, files, part, phase, fi, vi, si, ei, tested, signal, index, file, obs, outcome>>
+  /\ UNCHANGED <<rules, files, part, phase, fi, vi, si, ei, tested, signal, index, file, cell, fw, obs, outcome>>
 
 \* ---- evalRules: source order; body iff pattern absent or truthy; next ends the round
 TestPattern(b) ==
   /\ Quiet /\ phase = "files" /\ level = "rule" /\ ~tested /\ ri <= N("P")
   /\ b \in BOOLEAN
   /\ rules[part["P"][ri]].haspat \/ b          \* no pattern: always matches
-  /\ obs' = Push(Entry("test", b, "none"))
+  /\ obs' = Push(Entry("test", b, "none", "none"))
   /\ IF b THEN tested' = TRUE /\ ri' = ri ELSE tested' = FALSE /\ ri' = ri + 1
-  /\ UNCHANGED <<rules, files, part, phase, level, fi, vi, si, ei, signal, dollar, index, file, outcome>>
-RunBody(sig) ==
+  /\ UNCHANGED <<rules, files, part, phase, level, fi, vi, si, ei, signal, dollar, index, file, cell, fw, outcome>>
+RunBody(sig, w) ==
   /\ Quiet /\ phase = "files" /\ level = "rule" /\ tested
-  /\ sig \in {"none", "next", "exit"}
-  /\ obs' = Push(Entry("body", TRUE, sig))
+  /\ sig \in {"none", "next", "exit"} /\ CanWrite(w)
+  /\ obs' = Push(Entry("body", TRUE, sig, w))
+  /\ cell' = CellAfter(w, part["P"][ri])
+  /\ fw' = (IF w = "sf" THEN part["P"][ri] ELSE fw)
   /\ tested' = FALSE /\ signal' = sig /\ ri' = ri + 1
   /\ UNCHANGED <<rules, files, part, phase, level, fi, vi, si, ei, dollar, index, file, outcome>>
 ConsumeNext ==
   /\ phase = "files" /\ level = "rule" /\ signal = "next"
   /\ signal' = "none" /\ level' = "elem"
-  /\ UNCHANGED <<rules, files, part, phase, fi, vi, si, ei, ri, tested, dollar, index, file, obs, outcome>>
+  /\ UNCHANGED <<rules, files, part, phase, fi, vi, si, ei, ri, tested, dollar, index, file, cell, fw, obs, outcome>>
 EndRules ==
   /\ Quiet /\ phase = "files" /\ level = "rule" /\ ~tested /\ ri > N("P")
   /\ level' = "elem"
-  /\ UNCHANGED <<rules, files, part, phase, fi, vi, si, ei, ri, tested, signal, dollar, index, file, obs, outcome>>
+  /\ UNCHANGED <<rules, files, part, phase, fi, vi, si, ei, ri, tested, signal, dollar, index, file, cell, fw, obs, outcome>>
 
 \* ---- ENDFILE rules
-RunEndFile(sig) == Quiet /\ phase = "files" /\ level = "ef" /\ RunPlain(sig)
+RunEndFile(sig, w) == Quiet /\ phase = "files" /\ level = "ef" /\ RunPlain(sig, w)
+\* the round is over: its tree is dropped
 EndRoot ==
   /\ Quiet /\ phase = "files" /\ level = "ef" /\ ri > N("EF")
-  /\ level' = "sel"
-  /\ UNCHANGED <<rules, files, part, phase, fi, vi, si, ei, ri, tested, signal, dollar, index, file, obs, outcome>>
+  /\ level' = "sel" /\ cell' = NoCell
+  /\ UNCHANGED <<rules, files, part, phase, fi, vi, si, ei, ri, tested, signal, dollar, index, file, fw, obs, outcome>>
 
 \* ---- END rules, $ = null
-RunEnd(sig) == Quiet /\ phase = "end" /\ RunPlain(sig)
+RunEnd(sig, w) == Quiet /\ phase = "end" /\ RunPlain(sig, w)
 Finish ==
   /\ Quiet /\ phase = "end" /\ ri > N("E")
   /\ phase' = "done" /\ outcome' = "ok"
-  /\ UNCHANGED <<rules, files, part, level, fi, vi, si, ei, ri, tested, signal, dollar, index, file, obs>>
+  /\ UNCHANGED <<rules, files, part, level, fi, vi, si, ei, ri, tested, signal, dollar, index, file, cell, fw, obs>>
 
 \* ---- errExit at any level: the run ends at once, successfully
 Exit ==
   /\ signal = "exit" /\ phase # "done"
   /\ phase' = "done" /\ outcome' = "ok" /\ signal' = "none"
-  /\ UNCHANGED <<rules, files, part, level, fi, vi, si, ei, ri, tested, dollar, index, file, obs>>
+  /\ UNCHANGED <<rules, files, part, level, fi, vi, si, ei, ri, tested, dollar, index, file, cell, fw, obs>>
 
 \* the actions that take no parameter and correspond to no logged event of the real code
 \* (NextValue, NextSelector, NextElement, ConsumeNext, Exit, Finish are parameterless too but are logged)
@@ -269,17 +319,18 @@ Ordered == HasPair => LexLess(Prev.pos, Last.pos)
 \* no BEGIN rule after a rule of another kind; only END rules after an END rule
 BeginFirst == HasPair => (Last.k = "B" => Prev.k = "B")
 EndLast == HasPair => (Prev.k = "E" => Last.k = "E")
-EndDollarNull == HasLast => (Last.k = "E" => Last.d = DNull)
+EndDollarNull == HasLast => (Last.k = "E" => Last.d = DNull /\ Last.cw = NoW)
 
 \* $, $index, $file as the statement prescribes them for each activation
 Bindings ==
   HasLast =>
     LET a == Last f == a.pos[2] v == a.pos[3] s == a.pos[4] IN
     /\ a.k \in {"BF", "EF"} => a.d = DRoot(f, v, s) /\ a.fb = f
+    /\ a.k \in {"BF", "P", "EF"} => a.en \in {-1, files[f][v][s].n}
     /\ a.k = "P" =>
          /\ a.fb = f
-         /\ IF files[f][v][s].n >= 0
-              THEN a.d = DElem(f, v, s, a.pos[6]) /\ a.x = a.pos[6] /\ a.pos[6] \in 0..(files[f][v][s].n - 1)
+         /\ IF a.en >= 0
+              THEN a.d = DElem(f, v, s, a.pos[6]) /\ a.x = a.pos[6] /\ a.pos[6] \in 0..(a.en - 1)
               ELSE a.d = DRoot(f, v, s) /\ a.pos[6] = 0
 
 \* a round visits the pattern rules in source order
@@ -305,7 +356,7 @@ NextSkipsRestOfElementOnly ==
       /\ ~SameRound(Prev, Last)
       /\ LET a == Prev c == Last f == a.pos[2] v == a.pos[3] s == a.pos[4] IN
          \* the next activation is the first rule of the next element if there is one ...
-         IF files[f][v][s].n > a.pos[6] + 1
+         IF a.en > a.pos[6] + 1
            THEN c.k = "P" /\ c.i = 0 /\ Prefix(c.pos, 5) = Prefix(a.pos, 5) /\ c.pos[6] = a.pos[6] + 1
            \* ... else it is not a pattern rule of this root any more
            ELSE Prefix(c.pos, 5) # Prefix(a.pos, 5)
@@ -320,14 +371,42 @@ ExitAbsorbing ==
 \* ... and nothing happens after the end of the run (action property)
 Absorbing == [][phase # "done"]_dvars
 
+\* ---- the bindings are re-made: what one rule, value or round wrote is gone in the next
+SameRoot(a, b) == Prefix(a.pos, 4) = Prefix(b.pos, 4)
+SameValue(a, b) == Prefix(a.pos, 3) = Prefix(b.pos, 3)
+InFiles(a) == a.k \in {"BF", "P", "EF"}
+Untouched(a) == a.cw = NoW /\ a.ews = <<>> /\ ~a.dopen
+FreshBindings ==
+  /\ HasLast =>
+       /\ Last.k \in {"B", "E"} => Last.cw = NoW /\ Last.ews = <<>>
+       /\ (Len(obs) = 1 /\ InFiles(Last)) => Untouched(Last) /\ Last.fw = 0
+  /\ HasPair =>
+       \* the first activation of a round sees the root as selected from the value as read ...
+       /\ (InFiles(Last) /\ ~(InFiles(Prev) /\ SameRoot(Prev, Last))) => Untouched(Last)
+       \* ... and the first activation for a value sees $file name the file
+       /\ (InFiles(Last) /\ ~(InFiles(Prev) /\ SameValue(Prev, Last))) => Last.fw = 0
+       /\ (InFiles(Last) /\ InFiles(Prev) /\ SameValue(Prev, Last) /\ ~SameRoot(Prev, Last)) => Last.fw \in {0, -1}
+\* within a round a write is an ordinary assignment: the next activation on the same cell sees it
+WritesLast ==
+  HasPair =>
+    /\ (InFiles(Prev) /\ Prev.w = "sf" /\ InFiles(Last) /\ SameRoot(Prev, Last)) => Last.fw = Prev.r
+    /\ (InFiles(Prev) /\ Prev.w \in {"none", "sd", "sm"} /\ InFiles(Last) /\ SameRoot(Prev, Last)) => Last.fw = Prev.fw
+    /\ (Prev.k = "P" /\ Last.k = "P" /\ SameRound(Prev, Last)) =>
+          Last.cw = (IF Prev.w \in {"sd", "sm"} THEN Written(Prev.w, Prev.r) ELSE Prev.cw)
+    /\ (Prev.k = "BF" /\ Last.k \in {"BF", "P"} /\ SameRoot(Prev, Last) /\ Last.en = -1) =>
+          Last.cw = (IF Prev.w \in {"sd", "sm"} THEN Written(Prev.w, Prev.r) ELSE Prev.cw)
+    /\ Last.w = "sm" => Last.cw[1] # "w"
+
 \* ElementMultiplicity: an array root of length n gets exactly the rounds 0..n-1
 \* in order, any other root exactly one.  Counted (when there is a pattern rule,
 \* so that rounds are visible in obs, and the whole history is kept) at the moment
 \* the rounds of a root are over, and for all roots at the end of a run without exit.
 RoundsOf(f, v, s) ==
   SelectSeq(obs, LAMBDA a : a.k = "P" /\ a.t = "test" /\ a.i = 0 /\ Prefix(a.pos, 4) = <<1, f, v, s>>)
+\* a BEGINFILE rule gave the root cell a scalar: the root is not an array in this round
+Reassigned(f, v, s) == \E k \in 1..Len(obs) : obs[k].k = "BF" /\ obs[k].w = "sd" /\ Prefix(obs[k].pos, 4) = <<1, f, v, s>>
 RoundsRight(f, v, s) ==
-  LET R == RoundsOf(f, v, s) n == files[f][v][s].n IN
+  LET R == RoundsOf(f, v, s) n == IF Reassigned(f, v, s) THEN -1 ELSE files[f][v][s].n IN
   /\ Len(R) = (IF n >= 0 THEN n ELSE 1)
   /\ \A j \in 1..Len(R) : R[j].pos[6] = j - 1
 ElementMultiplicity ==
